@@ -77,7 +77,8 @@ def putPath {N : Type} (fields : Dict N) : Path → Option (JValue N) → Dict N
     Modify of an unmodified path `p`: remember the value at `p`, as it is and with the still-outstanding
     modifications strictly below `p` undone (those are subsumed by `p` from now on).
     Restore of `p`: if `p` is modified, the value at `p` must be the remembered one; everything at or
-    below `p` stops being tracked (what was recorded below lived inside the value that just went away). -/
+    below `p` stops being tracked (what was recorded below lived inside the value that just went away).
+    If `p` is not modified, nothing is demanded; modifications below `p` that came back stop being tracked. -/
 def specStepM {N : Type} [DecidableEq N] (g : Ghost N) (prev : Dict N) (op : MOp N) (ok : Bool) (now : Dict N) :
     Option Clause × Ghost N :=
   if !ok then (none, g)
@@ -91,11 +92,15 @@ def specStepM {N : Type} [DecidableEq N] (g : Ghost N) (prev : Dict N) (op : MOp
         let undone := below.reverse.foldl (fun f e => putPath f e.1 e.2.2) prev
         (none, g.filter (fun e => !strictBelow p e.1) ++ [(p, getPath prev p, getPath undone p)])
     | .restore p =>
-      let verdict := match gLookup p g with
-        | some (asWas, undone) =>
-          if getPath now p = asWas ∨ getPath now p = undone then none else some Clause.restoreIdentity
-        | none => none
-      (verdict, g.filter (fun e => !isPrefix p e.1))
+      match gLookup p g with
+      | some (asWas, undone) =>
+        ((if getPath now p = asWas ∨ getPath now p = undone then none else some Clause.restoreIdentity),
+         g.filter (fun e => !isPrefix p e.1))
+      | none =>
+        -- `p` itself is not modified; the property does not say whether the modifications below it are restored
+        -- along: those whose recorded value is back stop being tracked, the others stay outstanding
+        (none, g.filter (fun e => !(strictBelow p e.1 &&
+          (decide (getPath now e.1 = e.2.1) || decide (getPath now e.1 = e.2.2)))))
 
 /-- A whole observed case: initial tree and the steps `(op, ok, tree after)`.  First violated clause. -/
 def specM {N : Type} [DecidableEq N] : Ghost N → Dict N → List (MOp N × Bool × Dict N) → Option Clause
